@@ -69,10 +69,10 @@ type TGen struct {
 	MissingNested    bool // items may lack the list a nested loop iterates
 	VarRefs          bool // top-level variable values may mention other variables' placeholders
 	inItem           bool
-	Else     bool // generate {{else}} branches
-	Nested   bool // nested each
-	Newlines bool
-	varN     int
+	Else             bool // generate {{else}} branches
+	Nested           bool // nested each
+	Newlines         bool
+	varN             int
 }
 
 var (
